@@ -45,7 +45,8 @@ def Cases(tier):
 
 EXTRA = {}
 
-REQUIRED = ['fam_if_chain', 'fam_repeated_call', 'fam_double_negation',
+REQUIRED = ['fam_dup_disjuncts', 'fam_implication_conj', 'fam_partial_call_in_combine', 'fam_repeated_inject', 'fam_multi_disj_conj', 'fam_in_expr_repeated', 'fam_union_named_positional',
+            'fam_if_chain', 'fam_repeated_call', 'fam_double_negation',
             'fam_bound_in_repeated', 'proggen', 'pg_disjunction', 'pg_in', 'pg_assign', 'pg_dup_fact',
             'pcall_repeated', 'disjunction_of_atoms', 'if_chain',
             'named_args_reordered_between_rules',
